@@ -114,11 +114,14 @@ struct Case {
     server: bool,
     ops: Vec<Op>,
     allow_drop: bool,
+    /// the resource also has a throttling flow rule (1 request per ms, generous queueing): requests at
+    /// the same instant are queued - held for a virtual millisecond or so - and then admitted like any other
+    throttled: bool,
 }
 
 impl Case {
     fn to_json(&self) -> Value {
-        json!({"isolation_threshold": self.threshold, "fallback": self.with_fallback, "role": if self.server {"Server"} else {"Client"},
+        json!({"isolation_threshold": self.threshold, "throttling_rule": self.throttled, "fallback": self.with_fallback, "role": if self.server {"Server"} else {"Client"},
                "ops": self.ops.iter().map(|o| format!("{o:?}")).collect::<Vec<_>>()})
     }
 }
@@ -140,7 +143,7 @@ fn gen_case(rng: &mut Rng, long: bool) -> Case {
             Op::Drop(rng.below(8) as usize)
         });
     }
-    Case { threshold: rng.range(1, 3) as u32, with_fallback: rng.chance(1, 2), server: rng.chance(1, 2), ops, allow_drop }
+    Case { threshold: rng.range(1, 3) as u32, with_fallback: rng.chance(1, 2), server: rng.chance(1, 2), ops, allow_drop, throttled: rng.chance(1, 4) }
 }
 
 struct Pending {
@@ -160,6 +163,19 @@ struct Outcome {
 fn run_case(case: &Case) -> Outcome {
     let res = fresh_name("c20");
     isolation::load_rules_of_resource(&res, vec![Arc::new(isolation::Rule { resource: res.clone(), threshold: case.threshold, ..Default::default() })]).unwrap();
+    if case.throttled {
+        sentinel_core::flow::load_rules_of_resource(
+            &res,
+            vec![Arc::new(sentinel_core::flow::Rule {
+                resource: res.clone(),
+                threshold: 1000.0,
+                control_strategy: sentinel_core::flow::ControlStrategy::Throttling,
+                max_queueing_time_ms: 5_000,
+                ..Default::default()
+            })],
+        )
+        .unwrap();
+    }
     let calls = Arc::new(AtomicUsize::new(0));
     let scripts = Arc::new(Mutex::new(VecDeque::new()));
     let inner = Inner { calls: calls.clone(), scripts: scripts.clone() };
@@ -290,6 +306,7 @@ fn run_case(case: &Case) -> Outcome {
         }
     }
     isolation::clear_rules_of_resource(&res);
+    sentinel_core::flow::clear_rules_of_resource(&res);
     if rejected > 0 && (errs_released > 0 || oks_released > 0) {
         out.sig = Some(format!(
             "T{}|fb{}|{}|rej{}|err{}|ok{}|conc{}|drop{}",
